@@ -38,7 +38,9 @@ Definition exportable (s : istate) : Prop :=
   i_version s <> v13 /\
   i_local_epoch s < N.of_nat (length (i_local_seq s)) /\
   (* the keys are switched on: generateInternalState refuses anything earlier *)
-  i_local_epoch s <> 0 /\ i_master s <> [].
+  i_local_epoch s <> 0 /\ i_master s <> [] /\
+  (* the counter is one a connection can have reached without attempting writes after exhaustion *)
+  get (i_local_seq s) (i_local_epoch s) <= seq_limit.
 
 (* the result of the whole round trip, explicitly *)
 Definition imported (s : istate) (id : N) : istate :=
@@ -63,11 +65,12 @@ Lemma import_export_eq s id :
   i_suite s = Some id -> suite_known id = true -> i_version s <> v13 ->
   i_local_epoch s < N.of_nat (length (i_local_seq s)) ->
   i_local_epoch s <> 0 -> i_master s <> [] ->
+  get (i_local_seq s) (i_local_epoch s) <= seq_limit ->
   import_export s = Some (imported s id).
 Proof.
-  intros Hs Hk Hv Hl He0 Hm.
+  intros Hs Hk Hv Hl He0 Hm Hq.
   pose proof (suite_known_nonzero id Hk) as Hnz.
-  unfold import_export, gen_state. rewrite Hs.
+  unfold import_export, gen_state, gen_state_gen. rewrite Hs.
   destruct (i_version s =? v13) eqn:Ev; [apply N.eqb_eq in Ev; contradiction|].
   destruct (N.of_nat (length (i_local_seq s)) <=? i_local_epoch s) eqn:El;
     [apply N.leb_le in El; lia|].
@@ -77,8 +80,11 @@ Proof.
   unfold unmarshal. cbn [s_version]. change (v12 =? v13) with false. cbn iota.
   unfold deserialize. cbn [s_version s_suite p_suite]. change (v12 =? v_zero) with false. cbn iota.
   rewrite Hk.
-  unfold gen_internal, pre_keys. cbn [p_suite p_version p_local_epoch p_master s_local_epoch s_master]. rewrite E0.
+  unfold gen_internal, gen_internal_gen, pre_keys.
+  cbn [p_suite p_version p_local_epoch p_master p_seq s_local_epoch s_master s_seq]. rewrite E0.
   change (v12 =? v13) with false.
+  destruct (seq_limit <? get (i_local_seq s) (i_local_epoch s)) eqn:Eq; [apply N.ltb_lt in Eq; lia|].
+  rewrite Bool.andb_false_r.
   destruct (i_local_epoch s =? 0) eqn:Ee; [apply N.eqb_eq in Ee; contradiction|].
   destruct (i_master s) as [|m0 ms] eqn:Em; [contradiction|].
   rewrite Hk. cbn [negb orb]. cbn iota.
@@ -88,7 +94,7 @@ Qed.
 Lemma exportable_import s : exportable s -> exists id, i_suite s = Some id /\ suite_known id = true /\
   import_export s = Some (imported s id).
 Proof.
-  intros [[id [Hs Hk]] [Hv [Hl [He0 Hm]]]]. exists id. repeat split; try assumption.
+  intros [[id [Hs Hk]] [Hv [Hl [He0 [Hm Hq]]]]]. exists id. repeat split; try assumption.
   now apply import_export_eq.
 Qed.
 
@@ -96,26 +102,31 @@ Qed.
 Theorem import_export_defined_iff s : (exists s', import_export s = Some s') <-> exportable s.
 Proof.
   split.
-  - intros [s' H]. unfold import_export, gen_state in H.
+  - intros [s' H]. unfold import_export, gen_state, gen_state_gen in H.
     destruct (i_suite s) as [id|] eqn:Hs; [|discriminate].
     destruct (i_version s =? v13) eqn:Ev; [discriminate|].
-    destruct (N.of_nat (length (i_local_seq s)) <=? i_local_epoch s) eqn:El; [discriminate|].
+    destruct (N.of_nat (length (i_local_seq s)) <=? i_local_epoch s) eqn:El;
+      [destruct export_checks_counter_exists; discriminate|].
     unfold serialize in H. cbn [p_suite p_version] in H.
     destruct (id =? 0) eqn:E0; [discriminate|].
     change (v12 =? v13) with false in H. change (v12 =? v_zero) with false in H. cbn iota in H.
     unfold unmarshal in H. cbn [s_version] in H. change (v12 =? v13) with false in H. cbn iota in H.
     unfold deserialize in H at 1. cbn [p_suite s_suite] in H.
     destruct (suite_known id) eqn:Hk; [|discriminate].
-    unfold gen_internal, pre_keys, deserialize in H.
-    cbn [p_suite p_version p_local_epoch p_master s_local_epoch s_master s_suite s_version] in H.
+    unfold gen_internal, gen_internal_gen, pre_keys, deserialize in H.
+    cbn [p_suite p_version p_local_epoch p_master p_seq s_local_epoch s_master s_suite s_version s_seq] in H.
     change (v12 =? v_zero) with false in H. cbn iota in H.
     rewrite E0 in H. change (v12 =? v13) with false in H. cbn iota in H.
+    destruct (seq_limit <? get (i_local_seq s) (i_local_epoch s)) eqn:Eq;
+      [change import_checks_seq_limit with true in H; discriminate|].
+    rewrite Bool.andb_false_r in H.
     destruct (i_local_epoch s =? 0) eqn:Ee; [discriminate|].
     destruct (i_master s) as [|m0 ms] eqn:Em; [discriminate|].
     split; [exists id; split; [exact Hs|exact Hk]|].
     split; [apply N.eqb_neq; exact Ev|].
     split; [apply N.leb_gt in El; exact El|].
-    split; [apply N.eqb_neq; exact Ee|rewrite Em; discriminate].
+    split; [apply N.eqb_neq; exact Ee|].
+    split; [rewrite Em; discriminate|apply N.ltb_ge; exact Eq].
   - intros He. destruct (exportable_import s He) as [id [_ [_ H]]]. eexists. exact H.
 Qed.
 
@@ -173,32 +184,50 @@ Proof.
   - cbn. discriminate.
   - cbn. rewrite app_length, repeat_length. cbn [length]. lia.
   - cbn. destruct He as [_ [_ [_ [He0 _]]]]. exact He0.
-  - cbn. destruct He as [_ [_ [_ [_ Hm]]]]. exact Hm.
+  - cbn. destruct He as [_ [_ [_ [_ [Hm _]]]]]. exact Hm.
+  - cbn [imported i_local_seq i_local_epoch]. rewrite get_repeat0_app, N2Nat.id, N.eqb_refl.
+    destruct He as [_ [_ [_ [_ [_ Hq]]]]]. exact Hq.
 Qed.
 
-(* ------------------------------------------------------------------ no panic once established *)
+(* ------------------------------------------------------------------ ConnectionState() never panics (F73) *)
 
-(* ConnectionState() cannot hit the unchecked index once a record has been sent in the current
-   epoch (each side sends its Finished in epoch 1 before the handshake completes) *)
-Theorem gen_state_no_panic s :
-  i_local_epoch s < N.of_nat (length (i_local_seq s)) -> gen_state s <> Panics.
+(* with the bounds check of 4d323b9 generateState has no unchecked index left: whatever the
+   handshake goroutine is doing, a concurrent ConnectionState() returns a state or "not available" *)
+Theorem gen_state_never_panics s : gen_state s <> Panics.
 Proof.
-  intros Hl. unfold gen_state. destruct (i_suite s); [|discriminate].
+  unfold gen_state, gen_state_gen. change export_checks_counter_exists with true.
+  destruct (i_suite s); [|discriminate].
+  destruct (i_version s =? v13); [discriminate|].
+  destruct (N.of_nat (length (i_local_seq s)) <=? i_local_epoch s); discriminate.
+Qed.
+
+(* the window between SetLocalEpoch(1) (fsm12.prepare of the flight that carries ChangeCipherSpec)
+   and the first epoch-1 record: suite chosen, epoch already 1, only the epoch-0 counter allocated *)
+Definition epoch_switch_window : istate :=
+  mkI v12 1 0 [] [] [] [4] [] [] (Some 168) 0 [] [] [] false true [] [] [] []
+      false (false, false) false (0, 0).
+
+(* now: reported as not available, like a connection before its handshake *)
+Theorem gen_state_epoch_switch_refused :
+  i_suite epoch_switch_window = Some 168 /\ i_local_epoch epoch_switch_window = 1 /\
+  i_local_seq epoch_switch_window = [4] /\ gen_state epoch_switch_window = Refused.
+Proof. repeat split. Qed.
+
+(* regression witness: the code before the repair indexed out of range there *)
+Theorem gen_state_unchecked_index_refuted :
+  gen_state_gen false epoch_switch_window = Panics /\
+  (forall chk s, i_local_epoch s < N.of_nat (length (i_local_seq s)) -> gen_state_gen chk s <> Panics).
+Proof.
+  split; [reflexivity|]. intros chk s Hl. unfold gen_state_gen. destruct (i_suite s); [|discriminate].
   destruct (i_version s =? v13); [discriminate|].
   destruct (N.of_nat (length (i_local_seq s)) <=? i_local_epoch s) eqn:E; [apply N.leb_le in E; lia|].
   discriminate.
 Qed.
 
-(* ... but the window between SetLocalEpoch(1) and the first epoch-1 record exists: suite chosen,
-   epoch already 1, only the epoch-0 counter allocated (outside C19: not an established state) *)
-Theorem gen_state_panics_mid_handshake : exists s,
-  i_suite s = Some 168 /\ i_version s = v12 /\ i_local_epoch s = 1 /\ i_local_seq s = [4] /\
-  gen_state s = Panics.
-Proof.
-  exists (mkI v12 1 0 [] [] [] [4] [] [] (Some 168) 0 [] [] [] false true [] [] [] []
-              false (false, false) false (0, 0)).
-  repeat split.
-Qed.
+Theorem export_bounds_as_coded :
+  if export_checks_counter_exists then forall s, gen_state s <> Panics
+  else exists s, gen_state s = Panics.
+Proof. exact gen_state_never_panics. Qed.
 
 (* ------------------------------------------------------------------ DTLS 1.3 is refused *)
 
@@ -210,11 +239,11 @@ Theorem v13_refused :
   (forall s, i_version s = v13 -> import_export s = None).
 Proof.
   repeat split.
-  - intros s Hv. unfold gen_state. destruct (i_suite s); [|reflexivity]. rewrite Hv. reflexivity.
+  - intros s Hv. unfold gen_state, gen_state_gen. destruct (i_suite s); [|reflexivity]. rewrite Hv. reflexivity.
   - intros p Hv. unfold serialize. destruct (p_suite p =? 0); [reflexivity|]. rewrite Hv. reflexivity.
   - intros z Hv. unfold unmarshal. rewrite Hv. reflexivity.
-  - intros p Hv. unfold gen_internal. destruct (p_suite p =? 0); [reflexivity|]. rewrite Hv. reflexivity.
-  - intros s Hv. unfold import_export, gen_state. destruct (i_suite s); [|reflexivity]. rewrite Hv. reflexivity.
+  - intros p Hv. unfold gen_internal, gen_internal_gen, import_checks_seq_limit. destruct (p_suite p =? 0); [reflexivity|]. rewrite Hv. reflexivity.
+  - intros s Hv. unfold import_export, gen_state, gen_state_gen, export_checks_counter_exists. destruct (i_suite s); [|reflexivity]. rewrite Hv. reflexivity.
 Qed.
 
 (* ------------------------------------------------------------------ nothing to resume before the keys are on *)
@@ -230,16 +259,17 @@ Theorem pre_keys_refused :
   (exists z p, s_local_epoch z = 0 /\ unmarshal z = Some p /\ gen_internal p = None).
 Proof.
   split; [|split; [|split]].
-  - intros p H. unfold gen_internal. destruct (p_suite p =? 0); [reflexivity|].
+  - intros p H. unfold gen_internal, gen_internal_gen, import_checks_seq_limit. destruct (p_suite p =? 0); [reflexivity|].
     destruct (p_version p =? v13); [reflexivity|].
     assert (E : pre_keys p = true).
     { unfold pre_keys. destruct H as [H|H]; rewrite H; [reflexivity|apply orb_true_r]. }
-    rewrite E. reflexivity.
+    rewrite E. destruct (true && (seq_limit <? p_seq p)); reflexivity.
   - intros s H. destruct (import_export s) as [s'|] eqn:E; [|reflexivity].
     assert (He : exportable s) by (apply import_export_defined_iff; eauto).
-    destruct He as [_ [_ [_ [He0 Hm]]]]. destruct H; contradiction.
-  - intros p x H. unfold gen_internal in H. destruct (p_suite p =? 0); [discriminate|].
+    destruct He as [_ [_ [_ [He0 [Hm _]]]]]. destruct H; contradiction.
+  - intros p x H. unfold gen_internal, gen_internal_gen, import_checks_seq_limit in H. destruct (p_suite p =? 0); [discriminate|].
     destruct (p_version p =? v13); [discriminate|].
+    destruct (true && (seq_limit <? p_seq p)); [discriminate|].
     destruct (pre_keys p) eqn:E; [discriminate|].
     destruct (negb (suite_known (p_suite p))); [discriminate|]. injection H as <-. cbn.
     unfold pre_keys in E. apply orb_false_elim in E. destruct E as [E1 E2].
@@ -276,7 +306,7 @@ Section ExporterSound.
     i_local_epoch s < N.of_nat (length (i_local_seq s)) ->
     conn_exporter PHash reserved (imported s id) label n = conn_exporter PHash reserved s label n.
   Proof.
-    intros Hs Hv Hl. unfold conn_exporter, gen_state. rewrite Hs.
+    intros Hs Hv Hl. unfold conn_exporter, gen_state, gen_state_gen, export_checks_counter_exists. rewrite Hs.
     destruct (i_version s =? v13) eqn:Ev; [apply N.eqb_eq in Ev; contradiction|].
     destruct (N.of_nat (length (i_local_seq s)) <=? i_local_epoch s) eqn:El;
       [apply N.leb_le in El; lia|].
@@ -322,7 +352,7 @@ Section ExporterSound.
     forall label n, conn_exporter PHash reserved t label n = conn_exporter PHash reserved s label n.
   Proof.
     intros [Hm [Hlr [Hrl [Hc [_ [_ [ids [idt [Hss [Hst [_ Hh]]]]]]]]]]] He Hvs Hvt Hls Hlt label n.
-    unfold conn_exporter, gen_state. rewrite Hss, Hst.
+    unfold conn_exporter, gen_state, gen_state_gen, export_checks_counter_exists. rewrite Hss, Hst.
     destruct (i_version s =? v13) eqn:E1; [apply N.eqb_eq in E1; contradiction|].
     destruct (i_version t =? v13) eqn:E2; [apply N.eqb_eq in E2; contradiction|].
     destruct (N.of_nat (length (i_local_seq s)) <=? i_local_epoch s) eqn:E3; [apply N.leb_le in E3; lia|].
@@ -524,6 +554,198 @@ Proof.
   exists (mkI v12 1 1 [] [] [3] (counters_after [] [0; 0; 1]) [] [] (Some 168) 0 [] [] [] false true [] [] [] []
               false (false, false) false (0, 0)).
   eexists. split; [reflexivity|]. split; [vm_compute; reflexivity|]. split; vm_compute; auto.
+Qed.
+
+(* ------------------------------------------------------------------ the imported number is within the limit (F74) *)
+
+(* whatever bytes were decoded: a state that the import accepts carries a next sequence number of
+   at most 2^48 (the value of an exhausted counter) *)
+Theorem imported_seq_within_limit p x :
+  gen_internal p = Some x ->
+  i_local_seq x = repeat 0 (N.to_nat (p_local_epoch p)) ++ [p_seq p] /\ i_local_epoch x = p_local_epoch p /\
+  get (i_local_seq x) (i_local_epoch x) = p_seq p /\ p_seq p <= seq_limit.
+Proof.
+  intros H. unfold gen_internal, gen_internal_gen in H. change import_checks_seq_limit with true in H.
+  destruct (p_suite p =? 0); [discriminate|]. destruct (p_version p =? v13); [discriminate|].
+  destruct (seq_limit <? p_seq p) eqn:Eq; [discriminate|]. cbn [andb] in H.
+  destruct (pre_keys p); [discriminate|]. destruct (negb (suite_known (p_suite p))); [discriminate|].
+  injection H as <-. cbn [i_local_seq i_local_epoch].
+  rewrite get_repeat0_app, N2Nat.id, N.eqb_refl. apply N.ltb_ge in Eq. repeat split. exact Eq.
+Qed.
+
+(* hence the resumed sender never wraps: for every accepted state - genuine or damaged - and every
+   number of writes a connection can attempt (fewer than 2^64 - 2^48 - 1), the numbers it puts on
+   the wire are pairwise distinct and none is below the accepted next number *)
+Theorem imported_sender_never_wraps p x (post : nat) :
+  gen_internal p = Some x -> N.of_nat post < two64 - seq_limit ->
+  let e := i_local_epoch x in
+  NoDup (emitted (i_local_seq x) (repeat e post)) /\
+  (forall e' q, In (e', q) (emitted (i_local_seq x) (repeat e post)) -> e' = e /\ p_seq p <= q <= max_seq).
+Proof.
+  intros H Hn e. destruct (imported_seq_within_limit p x H) as [Hl [He [Hg Hq]]].
+  assert (Hr : room (i_local_seq x) (length (repeat e post))).
+  { intros y. rewrite repeat_length, Hl, get_repeat0_app, N2Nat.id.
+    assert (two64 - seq_limit <= two64) by (vm_compute; discriminate).
+    destruct (y =? p_local_epoch p); lia. }
+  split; [apply emitted_nodup; exact Hr|].
+  intros e' q Hin. pose proof (emitted_repeat_epoch e post _ _ Hin) as E. cbn [fst] in E. subst e'.
+  split; [reflexivity|]. destruct (emitted_bounds _ _ Hr) as [_ Hb]. specialize (Hb e q Hin).
+  unfold e in Hb at 1. rewrite Hg in Hb. split; [lia|]. eapply emitted_le_max. exact Hin.
+Qed.
+
+(* regression witness: before the repair 2^64 - 1 was accepted; the first write is refused (the
+   number is above 2^48 - 1), the counter wraps, and the next writes go out as records 0 and 1 of
+   epoch 1 - numbers the exporting connection had used (its counter had reached 3) *)
+Theorem seq_beyond_limit_wraps_refuted : exists pre s z p x,
+  i_local_seq s = counters_after [] pre /\ i_local_epoch s = 1 /\ get (i_local_seq s) 1 = 3 /\
+  s_seq z = two64 - 1 /\ unmarshal z = Some p /\ gen_internal_gen false p = Some x /\
+  key_inputs x = key_inputs s /\
+  emitted (i_local_seq x) [1; 1; 1] = [(1, 0); (1, 1)] /\
+  In (1, 0) (emitted [] pre) /\ In (1, 1) (emitted [] pre) /\
+  gen_internal p = None.
+Proof.
+  exists [0; 0; 1; 1; 1].
+  exists (mkI v12 1 1 [1] [2] [3] (counters_after [] [0; 0; 1; 1; 1]) [] [] (Some 168) 0 [] [] [] false true
+              [] [] [] [] false (false, false) false (0, 0)).
+  exists (mkS v12 1 1 [1] [2] 168 [3] (two64 - 1) 0 [] [] [] [] [] [] false true []).
+  do 2 eexists.
+  split; [reflexivity|]. split; [reflexivity|]. split; [vm_compute; reflexivity|].
+  split; [reflexivity|]. split; [reflexivity|]. split; [reflexivity|].
+  split; [reflexivity|]. split; [vm_compute; reflexivity|].
+  split; [vm_compute; auto|]. split; [vm_compute; auto|]. vm_compute. reflexivity.
+Qed.
+
+Theorem seq_limit_as_coded :
+  if import_checks_seq_limit
+  then forall p x, gen_internal p = Some x -> get (i_local_seq x) (i_local_epoch x) <= seq_limit
+  else exists p x, gen_internal p = Some x /\ In (1, 0) (emitted (i_local_seq x) [1; 1]).
+Proof.
+  cbv beta iota delta [import_checks_seq_limit]. intros p x H.
+  destruct (imported_seq_within_limit p x H) as [_ [_ [Hg Hq]]]. rewrite Hg. exact Hq.
+Qed.
+
+(* the other face of the limit: a connection whose counter went beyond 2^48 - it was exhausted
+   and attempted further writes, each attempt advancing the counter - can no longer be resumed ... *)
+Theorem exhausted_sender_refused s :
+  seq_limit < get (i_local_seq s) (i_local_epoch s) -> import_export s = None.
+Proof.
+  intros Hq. destruct (import_export s) as [s'|] eqn:E; [|reflexivity].
+  assert (He : exportable s) by (apply import_export_defined_iff; eauto).
+  destruct He as [_ [_ [_ [_ [_ Hl]]]]]. lia.
+Qed.
+
+(* ... which loses no record number: such a sender cannot put anything on the wire any more *)
+Theorem exhausted_sender_sends_nothing (n : nat) : forall st e,
+  max_seq < get st e -> get st e + N.of_nat n < two64 -> emitted st (repeat e n) = [].
+Proof.
+  induction n as [|n IH]; intros st e Hq Hn; [reflexivity|].
+  cbn [repeat]. rewrite emitted_cons.
+  destruct (get st e <=? max_seq) eqn:E; [apply N.leb_le in E; lia|].
+  apply IH.
+  - rewrite get_alloc_same, N.mod_small by lia. lia.
+  - rewrite get_alloc_same, N.mod_small by lia. lia.
+Qed.
+
+(* a counter of exactly 2^48 (exhausted, no further attempt) still resumes *)
+Theorem exhausted_counter_at_limit_resumes : exists s s',
+  get (i_local_seq s) (i_local_epoch s) = seq_limit /\ import_export s = Some s' /\
+  emitted (i_local_seq s') [1; 1] = [].
+Proof.
+  exists (mkI v12 1 1 [1] [2] [3] [4; seq_limit] [] [] (Some 168) 0 [] [] [] false true
+              [] [] [] [] false (false, false) false (0, 0)).
+  eexists. split; [reflexivity|]. split; [vm_compute; reflexivity|]. vm_compute. reflexivity.
+Qed.
+
+(* ------------------------------------------------------------------ a resumed Conn starts in the finished state (F67) *)
+
+Theorem resumed_conn_starts_finished vmin vmax : handshake_start vmin vmax true = StartFinished.
+Proof.
+  unfold handshake_start, handshake_start_gen. change resume_honoured_for_any_version with true.
+  cbn [andb]. rewrite Bool.orb_true_r. reflexivity.
+Qed.
+
+(* regression witnesses: before the repair, options that allow DTLS 1.3 (the options a dual-stack
+   endpoint negotiated the 1.2 session with, or 1.3-only options) made the Conn ignore the state *)
+Theorem resume_ignored_refuted :
+  handshake_start_gen false v12 v13 true = StartDualStack /\
+  handshake_start_gen false v13 v13 true = StartNew13 /\
+  (forall vmin, handshake_start_gen false vmin v12 true = StartFinished).
+Proof. repeat split. Qed.
+
+Theorem resume_start_as_coded :
+  if resume_honoured_for_any_version
+  then forall vmin vmax, handshake_start vmin vmax true = StartFinished
+  else exists vmin vmax, handshake_start vmin vmax true <> StartFinished.
+Proof. exact resumed_conn_starts_finished. Qed.
+
+(* without a resume state the version range alone decides (unchanged) *)
+Theorem fresh_conn_start vmin vmax :
+  handshake_start vmin vmax false =
+  if vmax =? v12 then StartNew12 else if vmin =? v13 then StartNew13 else StartDualStack.
+Proof.
+  unfold handshake_start, handshake_start_gen. rewrite Bool.andb_false_r, Bool.orb_false_r. reflexivity.
+Qed.
+
+(* ------------------------------------------------------------------ gaps of the code as written (known findings) *)
+
+(* K-C19-1: state.go looks suites up with ForID(id, nil).  A session negotiated on a suite that only
+   the configuration's custom list knows is established and ConnectionState() returns it, but the
+   bytes MarshalBinary produces are refused by UnmarshalBinary, Resume refuses the State object
+   itself, and even the live state cannot export keying material - for every PRF. *)
+Theorem custom_suite_round_trip_refuted : exists s p z,
+  i_suite s = Some 65305 /\ i_local_epoch s = 1 /\ i_master s <> [] /\
+  gen_state s = Ok p /\ serialize p = Some z /\
+  unmarshal z = None /\ gen_internal p = None /\ import_export s = None /\
+  (forall PHash reserved label n, conn_exporter PHash reserved s label n = None).
+Proof.
+  exists (mkI v12 1 1 [1] [2] [3] [4; 1] [] [] (Some 65305) 0 [] [] [] false true
+              [] [] [] [] false (false, false) false (0, 0)).
+  do 2 eexists.
+  split; [reflexivity|]. split; [reflexivity|]. split; [discriminate|].
+  split; [reflexivity|]. split; [reflexivity|]. split; [reflexivity|]. split; [reflexivity|].
+  split; [reflexivity|]. intros PHash reserved label n.
+  unfold conn_exporter. cbn. unfold exporter. cbn. destruct (reserved label); reflexivity.
+Qed.
+
+(* K-C19-2: the side that owns the final flight is established as soon as it has SENT it.  If that
+   datagram is lost the peer has not switched its read epoch ([i_remote_epoch t = 0]: premise
+   [i_local_epoch s <= i_remote_epoch t] of data_flows_after_import fails) and retransmits its own
+   flight; the original connection answers by repeating the final flight, the resumed one has
+   nothing to repeat (handshake counters (0, 0), no flights) - nothing it writes is delivered. *)
+Theorem final_flight_not_repeatable_refuted :
+  (forall s s', import_export s = Some s' -> can_repeat_final_flight s' = false) /\
+  (exists s s' t, import_export s = Some s' /\ mirrors s t /\
+     can_repeat_final_flight s = true /\ i_local_epoch s = 1 /\ i_remote_epoch t = 0 /\
+     delivers s t = false /\ delivers s' t = false /\ can_repeat_final_flight s' = false).
+Proof.
+  split.
+  - intros s s' H. assert (He : exportable s) by (apply import_export_defined_iff; eauto).
+    destruct (exportable_import s He) as [id [_ [_ H']]]. rewrite H in H'. injection H' as ->. reflexivity.
+  - exists (mkI v12 1 1 [1] [2] [3] [4; 1] [] [] (Some 168) 0 [] [] [] false false
+                [] [] [] [] false (false, false) false (5, 4)).
+    eexists.
+    exists (mkI v12 1 0 [2] [1] [3] [4; 1] [] [] (Some 168) 0 [] [] [] false true
+                [] [] [] [] false (false, false) false (4, 4)).
+    split; [vm_compute; reflexivity|]. split.
+    { repeat split. exists 168, 168. repeat split. }
+    repeat split.
+Qed.
+
+(* K-C19-3: until its first Handshake/Read/Write the Conn returned by Resume reports a blank state:
+   no ConnectionState, no SRTP profile, no keying material - whatever was imported *)
+Theorem resumed_conn_blank_before_start_refuted :
+  (forall x, gen_state (resumed_conn_before_start x) = Refused /\
+             obs_profile (resumed_conn_before_start x) = None /\
+             forall PHash reserved label n, conn_exporter PHash reserved (resumed_conn_before_start x) label n = None) /\
+  (exists s x, import_export s = Some x /\ gen_state x <> Refused /\ obs_profile x = Some 1 /\
+               obs_profile (resumed_conn_before_start x) <> obs_profile x).
+Proof.
+  split.
+  - intros x. repeat split.
+  - exists (mkI v12 1 1 [1] [2] [3] [4; 1] [] [] (Some 168) 1 [7] [] [] false false
+                [] [] [] [] false (false, false) false (5, 4)).
+    eexists. split; [vm_compute; reflexivity|]. split; [vm_compute; discriminate|].
+    split; [reflexivity|]. vm_compute. discriminate.
 Qed.
 
 (* ------------------------------------------------------------------ data keeps flowing *)
